@@ -5,7 +5,26 @@ open FtDriver
 def dispatch (j : Json) : Except String Verdict := do
   let prop ← fStr j "prop"
   match prop with
+  | "C01" => handleC01 j
+  | "C02" => handleC02 j
+  | "C03" => handleC03 j
   | "C04" => handleC04 j
+  | "C05" => handleC05 j
+  | "C06" => handleC06 j
+  | "C07" => handleC07 j
+  | "C08" => handleC08 j
+  | "C09" => handleC09 j
+  | "C10" => handleC10 j
+  | "C11" => handleC11 j
+  | "C12" => handleC12 j
+  | "C13" => handleC13 j
+  | "C14" => handleC14 j
+  | "C15" => handleC15 j
+  | "C16" => handleC16 j
+  | "C17" => handleC17 j
+  | "C18" => handleC18 j
+  | "C19" => handleC19 j
+  | "C20" => handleC20 j
   | _ => throw s!"unknown property {prop}"
 
 def answer (line : String) : String :=
